@@ -57,7 +57,7 @@ impl Profile {
             p_faulty_run: 0.3,
             p_migrate_run: 0.1,
             p_twin: 0.0,
-            p_marker_flux_run: 0.0,
+            p_marker_flux_run: 0.04,
             p_role_overlap: 0.35,
             p_improved_price: 0.5,
             p_partial_reject: 0.6,
@@ -808,7 +808,7 @@ pub fn run_one(seed: u64, run: u64, prof: &Profile, enabled: Enabled, want_sampl
 fn gen_migrate(sim: &Sim, r: &mut Rng, prof: &Profile) -> Step {
     let versions = [
         "0.15.0", "0.16.1", "0.16.2", "0.16.3", "0.17.3", "0.18.2", "0.19.0", "0.19.1", "0.19.2", "1.0.0", "1.0.1", "2.3.4",
-        "", "abc", "0.16", "v0.17.0", "0.16.02", "0.17.0-rc1", "0.16.2-rc.1", "0.16.1-beta", "0.15.0-alpha.1", "1.0.0+build5",
+        "", "abc", "0.16", "v0.17.0", "0.16.02", "0.17.0-rc1", "0.16.2-rc.1", "0.16.1-beta", "0.15.0-alpha.1", "1.0.0+build5", "<absent>", "<garbage>",
     ];
     let set_version = if r.chance(0.12) {
         None
